@@ -1,6 +1,7 @@
 package harness
 
 import (
+	"errors"
 	"bufio"
 	"bytes"
 	"compress/flate"
@@ -550,6 +551,8 @@ type respRec struct {
 	snapshotHdr http.Header
 	onWrite     func()
 	gate        func()
+	failWrites  int // so many of the next Write calls fail
+	nFailed     int
 }
 
 func (r *respRec) Header() http.Header { return r.hdr }
@@ -575,6 +578,12 @@ func (r *respRec) Write(p []byte) (int, error) {
 		r.snapshotHdr = r.hdr.Clone()
 	}
 	r.nWrite++
+	if r.failWrites > 0 { // the peer is gone but nobody has noticed yet (or a write deadline passed): the write fails
+		r.failWrites--
+		r.nFailed++
+		r.mu.Unlock()
+		return 0, errors.New("write: broken pipe")
+	}
 	r.body.Write(p)
 	f := r.onWrite
 	r.mu.Unlock()
@@ -628,6 +637,7 @@ type ReqOpt struct {
 	BodyRdr io.Reader
 	CType   string
 	RespHdr http.Header // headers an enclosing handler has already put on the response
+	FailWrites int      // so many Write calls on the response fail (a peer that is gone unnoticed)
 }
 
 func (w *World) baseQuery(s *Sess) string {
@@ -701,6 +711,7 @@ func (w *World) StartReq(kind string, s *Sess, o ReqOpt) *Req {
 	for k, v := range o.RespHdr {
 		r.rr.hdr[k] = append([]string(nil), v...)
 	}
+	r.rr.failWrites = o.FailWrites
 	w.mu.Lock()
 	w.reqs[id] = r
 	w.mu.Unlock()
